@@ -1,0 +1,107 @@
+//go:build verif
+
+// Contracts for the AWS KMS plugin (SDK v2), read by /verif/gocv (comment-only; no code).
+package kms
+
+//@ pkgalias kmsv2
+//@ debugnames
+
+// ctried(c) / cgen(c): Decrypt / GenerateDataKey requests the regional SDK client c has received
+//@ ghost field ctried(AWSClient) int
+//@ ghost field cgen(AWSClient) int
+//@ iface AWSClient.Decrypt
+//@   names ctx, params, optFns
+//@   modifies ctried(this)
+//@   ensures ctried(this) == old(ctried(this)) + 1
+//@   ensures err == nil ==> result != nil
+//@ iface AWSClient.GenerateDataKey
+//@   names ctx, params, optFns
+//@   modifies cgen(this)
+//@   ensures cgen(this) == old(cgen(this)) + 1
+//@   ensures err == nil ==> result != nil && result.KeyId != nil
+//@ iface AWSClient.Encrypt
+//@   names ctx, params, optFns
+//@   ensures err == nil ==> result != nil
+//@ axiom [timers-initialised] decryptKeyTimer != nil && encryptKeyTimer != nil
+
+// a regional client: one SDK request per call, to its own master key
+//@ func (*regionalClient).DecryptKey
+//@   facet C17
+//@   safety C17
+//@   requires r != nil && r.Client != nil
+//@   modifies ctried(r.Client)
+//@   ensures ctried(r.Client) == old(ctried(r.Client)) + 1
+//@   ensures err == nil ==> resp != nil
+//@   ensures [C17:regional-decrypt-sends-the-given-blob] ncalls(Decrypt) == 1 && arg(Decrypt, 1, params).CiphertextBlob == keyBytes
+//@ func (*regionalClient).GenerateDataKey
+//@   facet C17
+//@   safety C17
+//@   opt no-frame
+//@   requires r != nil && r.Client != nil
+//@   ensures cgen(r.Client) == old(cgen(r.Client)) + 1
+//@   ensures err == nil ==> resp != nil && resp.KeyId != nil
+//@   ensures [C17:regional-generate-asks-for-an-aes256-key-under-its-master-key] ncalls(GenerateDataKey) == 1 && resp == ret(GenerateDataKey, 1, 0)
+//@ func (*regionalClient).EncryptKey
+//@   facet C17
+//@   safety C17
+//@   requires r != nil && r.Client != nil
+//@   ensures err == nil ==> resp != nil
+//@   ensures [C17:regional-encrypt-wraps-the-given-bytes-under-its-master-key] ncalls(Encrypt) == 1 && arg(Encrypt, 1, params).Plaintext == keyBytes && resp == ret(Encrypt, 1, 0)
+
+//@ spec fn distinctClients2(a *AWSKMS) bool = (forall x int, y int :: 0 <= x && x < y && y < len(a.clients) ==> a.clients[x].Client != a.clients[y].Client) && (forall x int :: 0 <= x && x < len(a.clients) ==> a.clients[x].Client != nil)
+
+//@ spec fn clientsStable(a *AWSKMS) bool = distinctClients2(a) && a.clients == old(a.clients) && (forall j int :: 0 <= j && j < len(a.clients) ==> a.clients[j].Client == old(a.clients[j].Client) && a.clients[j].Region == old(a.clients[j].Region) && a.clients[j].MasterKeyARN == old(a.clients[j].MasterKeyARN))
+//@ func (*AWSKMS).generateDataKey
+//@   facet C17
+//@   safety C17
+//@   modifies cgen
+//@   requires a != nil && distinctClients2(a)
+//@   loop 1 invariant [C17:data-key-regions-asked-in-client-order] clientsStable(a) && 0 <= iter && iter <= len(a.clients) && (forall j int :: 0 <= j && j < iter ==> cgen(a.clients[j].Client) == old(cgen(a.clients[j].Client)) + 1) && (forall j int :: iter <= j && j < len(a.clients) ==> cgen(a.clients[j].Client) == old(cgen(a.clients[j].Client)))
+//@   ensures (err == nil) == (result != nil)
+//@   ensures [C17:wrap-fails-only-when-every-region-failed] err != nil ==> (forall j int :: 0 <= j && j < len(a.clients) ==> cgen(a.clients[j].Client) == old(cgen(a.clients[j].Client)) + 1)
+//@   ensures [C17:first-region-able-to-generate-is-used] err == nil ==> result.KeyId != nil
+//@   ensures [C17:no-region-is-skipped-on-the-way] forall x int, y int :: 0 <= x && x < y && y < len(a.clients) && cgen(a.clients[y].Client) != old(cgen(a.clients[y].Client)) ==> cgen(a.clients[x].Client) == old(cgen(a.clients[x].Client)) + 1
+
+//@ func (*AWSKMS).DecryptKey
+//@   facet C17, C10
+//@   ensures [C10:kms-data-key-plaintext-wiped] retis(DecryptKey, 1, 1, nil) ==> (forall i int :: 0 <= i && i < len(ret(DecryptKey, 1, 0).Plaintext) ==> ret(DecryptKey, 1, 0).Plaintext[i] == 0)
+//@   safety C17
+//@   opt no-frame
+//@   requires a != nil && a.crypto != nil && distinctClients2(a)
+//@   loop 1 invariant [C17:entries-indexed-by-region] 0 <= iter && iter <= len(kekEn.KEKs) && keks != nil && (forall r string :: r in keks ==> (exists j int :: 0 <= j && j < iter && kekEn.KEKs[j].Region == r)) && (forall j int :: 0 <= j && j < iter ==> kekEn.KEKs[j].Region in keks)
+//@   loop 2 invariant [C17:regions-tried-in-client-order] clientsStable(a) && keks != nil && (forall x int :: 0 <= x && x < len(kekEn.KEKs) ==> kekEn.KEKs[x].Region in keks) && 0 <= iter && iter <= len(a.clients) && (forall j int :: 0 <= j && j < iter && a.clients[j].Region in keks ==> ctried(a.clients[j].Client) == old(ctried(a.clients[j].Client)) + 1) && (forall j int :: iter <= j && j < len(a.clients) ==> ctried(a.clients[j].Client) == old(ctried(a.clients[j].Client)))
+//@   ensures (err == nil) || result == nil
+//@   ensures [C17:unwrap-returns-what-the-working-region-decrypted] err == nil ==> result == ret(Decrypt, 1, 0)
+//@   ensures [C17:unwrap-fails-only-after-every-region-with-an-entry-was-tried] err != nil && retis(Unmarshal, 1, 0, nil) ==> (forall j int, x int :: 0 <= j && j < len(a.clients) && 0 <= x && x < len(dyn(arg(Unmarshal, 1, v), *envelope).KEKs) && dyn(arg(Unmarshal, 1, v), *envelope).KEKs[x].Region == a.clients[j].Region ==> ctried(a.clients[j].Client) == old(ctried(a.clients[j].Client)) + 1)
+
+// ---------------- wrapping ----------------
+// the per-region goroutine: one Encrypt request through its own regional client; one entry for its own region on
+// success, none on failure
+//@ func (*AWSKMS).encryptAllRegions$1
+//@   facet C17
+//@   safety C17
+//@   opt no-frame
+//@   requires c.Client != nil && dataKey != nil && ch != nil && !chclosed(ch)
+//@   ensures [C17:region-encrypts-the-data-key-through-its-own-client] ncalls(EncryptKey) == 1 && arg(EncryptKey, 1, keyBytes) == dataKey.Plaintext && arg(EncryptKey, 1, r).Client == c.Client && arg(EncryptKey, 1, r).MasterKeyARN == c.MasterKeyARN
+//@   ensures [C17:one-entry-per-successful-region] retis(EncryptKey, 1, 1, nil) ==> chsent(ch) == old(chsent(ch)) + 1 && lastsent(ch).Region == c.Region && lastsent(ch).ARN == c.MasterKeyARN && lastsent(ch).EncryptedKEK == ret(EncryptKey, 1, 0).CiphertextBlob
+//@   ensures [C17:no-entry-for-a-failed-region] !retis(EncryptKey, 1, 1, nil) ==> chsent(ch) == old(chsent(ch))
+
+//@ func (*AWSKMS).encryptAllRegions
+//@   facet C17
+//@   safety C17
+//@   opt no-frame
+//@   opt allow-go
+//@   requires a != nil && distinctClients2(a) && dataKey != nil && dataKey.KeyId != nil && ch != nil && !chclosed(ch)
+//@   loop 1 invariant [C17:entries-sent-directly-carry-the-generated-blob] clientsStable(a) && 0 <= iter && iter <= len(a.clients) && !chclosed(ch) && (forall k int :: old(chsent(ch)) <= k && k < chsent(ch) ==> chlog(ch, k).EncryptedKEK == dataKey.CiphertextBlob && chlog(ch, k).ARN == *dataKey.KeyId)
+//@   ensures [C17:channel-closed-once-every-region-is-done] chclosed(ch)
+
+//@ func (*AWSKMS).EncryptKey
+//@   facet C17, C10
+//@   safety C17
+//@   opt no-frame
+//@   opt allow-go
+//@   requires a != nil && a.crypto != nil && distinctClients2(a)
+//@   ensures [C17,C10:data-key-plaintext-wiped-on-every-return] retis(generateDataKey, 1, 1, nil) ==> (forall i int :: 0 <= i && i < len(ret(generateDataKey, 1, 0).Plaintext) ==> ret(generateDataKey, 1, 0).Plaintext[i] == 0)
+//@   ensures [C17:key-sealed-under-the-generated-data-key] retis(generateDataKey, 1, 1, nil) ==> ncalls(Encrypt) == 1 && arg(Encrypt, 1, data) == keyBytes && arg(Encrypt, 1, key) == ret(generateDataKey, 1, 0).Plaintext
+//@   ensures [C17:envelope-carries-the-sealed-key] retis(Encrypt, 1, 1, nil) ==> ncalls(Marshal) == 1 && istype(arg(Marshal, 1, v), envelope) && dyn(arg(Marshal, 1, v), envelope).EncryptedKey == ret(Encrypt, 1, 0)
+//@   ensures [C17:wrap-fails-only-if-no-region-generates-a-key-or-sealing-fails] err != nil ==> !retis(generateDataKey, 1, 1, nil) || !retis(Encrypt, 1, 1, nil) || !retis(Marshal, 1, 1, nil)
